@@ -433,6 +433,34 @@ pub fn run(cfg: &RunCfg) -> Report {
 					n_ops += 5;
 					cases.push((format!("self:{:?}{}", mode, if poisoned { ":poisoned" } else { "" }), true));
 				}
+				// (C) every leaf lock KILLED (RawLock::poison - what a panicking raw operation does to a
+				// lock): formatting and the accessors must neither block, panic nor touch a hold.
+				// Irreversible, therefore the last pass of the episode.
+				{
+					use happylock::lockable::RawLock;
+					w.phantom_release_all();
+					for leaf in tc.arena.leaves.iter() {
+						match leaf {
+							Leaf::M(l) => l.poison(),
+							Leaf::R(l) => l.poison(),
+							Leaf::PM(l) => l.poison(),
+							Leaf::PR(l) => l.poison(),
+						}
+					}
+					for k in 0..=ids.len() {
+						if k < ids.len() {
+							w.phantom_hold(ids[k], Mode::Excl, k as u32, false);
+						}
+						tc.with_lk(target, |tc, lk, _| {
+							let _ = tc.nonacq("debug(target), every leaf killed", || lk.debug());
+							let _ = tc.nonacq("accessors(target), every leaf killed", || lk.accessors());
+							let _ = tc.nonacq("debug(target) into a failing sink, every leaf killed", || lk.debug_to(&mut Cut { left: 20 }));
+						});
+						w.phantom_release_all();
+						n_ops += 3;
+					}
+					cases.push(("killed".to_string(), true));
+				}
 				(n_ops, cases)
 			});
 			if let Some((n_ops, cases)) = res {
@@ -488,6 +516,6 @@ pub fn run(cfg: &RunCfg) -> Report {
 			}
 		}
 	});
-	rep.rule = format!("(a) every shape of sizes 0..{max_n} (as in C13) x every assignment of {{free, read-held, write-held by a phantom}} x both wake policies: Debug of the target + all &self accessors (child, iter, into_iter(&), as_ref, is_poisoned, clear_poison); (b) the same operations plus Debug of the guard while the calling thread itself holds the shape through a live guard and from inside a running scoped closure, read and write; (c) {owned_variants} variants of ownership-requiring operations (new/new_ref/from/from_iter/default/extend, get_mut, child_mut, iter_mut, into_child, into_inner of Mutex, RwLock, Poisonable and owned/boxed/ref/retrying collections of sizes 0..4) on locks that are free, phantom-held, or held through a guard leaked with mem::forget; every phantom-assignment case also formats the target into a sink that fails after 0..200 bytes and with a payload whose own Debug returns Err / panics (the formatting call ends early and must still restore every lock); every Debug / accessor case over shapes with Poisonable leaves is repeated with all those wrappers POISONED (re-poisoned before each group, since clear_poison is one of the operations); monitor: no blocking raw op inside the call and owner table equal before/after; non-trivial = some lock held during the call");
+	rep.rule = format!("(a) every shape of sizes 0..{max_n} (as in C13) x every assignment of {{free, read-held, write-held by a phantom}} x both wake policies: Debug of the target + all &self accessors (child, iter, into_iter(&), as_ref, is_poisoned, clear_poison); (b) the same operations plus Debug of the guard while the calling thread itself holds the shape through a live guard and from inside a running scoped closure, read and write; (c) {owned_variants} variants of ownership-requiring operations (new/new_ref/from/from_iter/default/extend, get_mut, child_mut, iter_mut, into_child, into_inner of Mutex, RwLock, Poisonable and owned/boxed/ref/retrying collections of sizes 0..4) on locks that are free, phantom-held, or held through a guard leaked with mem::forget; every phantom-assignment case also formats the target into a sink that fails after 0..200 bytes and with a payload whose own Debug returns Err / panics (the formatting call ends early and must still restore every lock); every Debug / accessor case over shapes with Poisonable leaves is repeated with all those wrappers POISONED (re-poisoned before each group, since clear_poison is one of the operations); and a last time with every leaf lock KILLED (RawLock::poison); monitor: no blocking raw op inside the call and owner table equal before/after; non-trivial = some lock held during the call");
 	rep
 }
